@@ -11,7 +11,9 @@ ALL_OPS = ["Reroot", "RerootFirst", "UnRoot", "RerootMidPoint", "RerootOutGroup"
 
 EDIT_MODEL = {
     # prop: ops, quick (mintips, maxtips, patterns, depth), thorough (...)
-    "C03": (ALL_OPS, [(3, 4, [1, 6], 1)], [(3, 4, [1, 2, 3, 4, 5, 6, 7, 8], 1), (5, 5, [1, 6, 7], 1)]),
+    # last bound: trees with a chain of single-child nodes, two calls (re-rooting below / inside the chain, then removing it)
+    "C03": (ALL_OPS, [(3, 4, [1, 6], 1), (3, 3, [1], 2, True, ["Reroot", "UnRoot", "RemoveSingleNodes", "RemoveTips"])],
+            [(3, 4, [1, 2, 3, 4, 5, 6, 7, 8], 1), (5, 5, [1, 6, 7], 1), (3, 4, [1, 6], 2, True, ["Reroot", "UnRoot", "RemoveSingleNodes", "RemoveTips"])]),
     "C05": (["Reroot", "RerootFirst", "UnRoot", "RerootMidPoint", "RerootOutGroup", "Rotate"],
             [(3, 4, [1, 2, 3, 4, 6, 7, 8], 1), (5, 5, [4], 1)], [(3, 5, [1, 2, 3, 4, 5, 6, 7, 8], 1)]),
     "C06": (["RemoveTips"], [(4, 5, [1, 6, 5], 1), (4, 4, [1, 6], 1, True)], [(4, 5, [1, 2, 3, 4, 5, 6, 7, 8], 1), (6, 6, [1], 1), (4, 5, [1, 6, 7], 1, True)]),
@@ -47,7 +49,8 @@ def edit_model(run, prop):
         for bi, b in enumerate(bounds):
             mn, mx, pats, depth = b[:4]
             chains = len(b) > 4 and b[4]
-            cfg = MODEL_CFG % (mx, mn, ",".join(map(str, pats)), depth, ",".join('"%s"' % o for o in ops), "TRUE" if chains else "FALSE")
+            bops = b[5] if len(b) > 5 else ops      # a bound may explore its own subset of the operations
+            cfg = MODEL_CFG % (mx, mn, ",".join(map(str, pats)), depth, ",".join('"%s"' % o for o in bops), "TRUE" if chains else "FALSE")
             out = vk.run_model(run, "TreeOps-%s-%d" % (prop, bi), "TreeOps.tla", cfg, workers=vk.NCPU, heap="8g")
             for mf in vk.printed(out, "MODELFAIL"):
                 run.model.setdefault("modelfails", set()).add(mf[0])
